@@ -1,8 +1,8 @@
 #!/venv/bin/python
 """Synthetic negative corpus 4: two mechanical restructurings, each behaviour-preserving by construction, one function per
 tree:
-  --delegate : the body of a function moves to a new private helper `_<name>_impl` with the same parameters, and the
-               function becomes `return <helper>(<its parameters>)` (methods: `return self._<name>_impl(...)`)
+  --delegate : the body of a function moves to a new private helper `_do_<name>` with the same parameters, and the
+               function becomes `return <helper>(<its parameters>)` (methods: `return self._do_<name>(...)`)
   --result   : every `return <expr>` of a function becomes `result_ = <expr>; return result_`
 Functions with decorators other than staticmethod, generators, nested functions and functions using `super()` / `locals()`
 are skipped for --delegate.  Every property's rules run on each tree in memory; any alarm or exit 2 is a false alarm.
@@ -49,7 +49,7 @@ def delegate(src, q, fn, cls):
         return None  # one-liner
     indent = len(lines[start]) - len(lines[start].lstrip())
     pad = " " * indent
-    helper = f"_{fn.name.lstrip('_')}_impl"
+    helper = f"_do_{fn.name.lstrip('_')}"
     is_method = cls is not None
     params = [x.arg for x in a.args]
     call_args = []
